@@ -26,7 +26,7 @@ LEVEL = "exploration"
 TECHNIQUE = "property-based testing (Hypothesis) of set -> queued telegrams -> process as outgoing -> state, against reference quantisers in exact rationals"
 RULE = (
     "adapters: Switch(invert), Light(on/off via switch / colour switches / colour brightness, brightness, tunable white, RGB, RGBW, individual colours, HS, xyY, "
-    "colour temperature 7.600 / 9.x), Cover(position, angle, up/down with invert flags, travel completed on a patched clock), Fan(percent, steps, switch, oscillation), "
+    "colour temperature 7.600 / 9.x), Cover(position, angle, open / close through the up/down address or - without one - through the position address, optionally stopped part-way, with invert flags, travel completed on a patched clock), Fan(percent, steps, switch, oscillation), "
     "Climate(target temperature direct, setpoint shift 6.010 / 9.002 with steps, target temperature through a setpoint shift, on/off invert, fan speed), "
     "ClimateMode(operation / controller modes via DPT 20.x and binary objects), NumericValue(curated DPTs), Scene, RawValue, Notification; 1..3 successive calls per case; "
     "cover_sequence: 2..3 Cover.set_position calls (covers without position address but stop / step address = timer based auto-stop, and with position address; travel times 2..60 s) "
@@ -243,7 +243,11 @@ CASES = st.one_of(
     _case("light_color_temp", st.fixed_dictionaries({"type": st.sampled_from(["uint", "float"])}), _calls(st.tuples(st.just("kelvin"), st.one_of(st.integers(1000, 10000), st.integers(0, 65535))))),
     _case("cover_position", st.fixed_dictionaries({"invert_position": st.booleans(), "invert_updown": st.booleans()}), _calls(st.tuples(st.just("position"), _pct))),
     _case("cover_angle", st.fixed_dictionaries({"invert_angle": st.booleans()}), _calls(st.tuples(st.just("angle"), _pct))),
-    _case("cover_updown", st.fixed_dictionaries({"invert_updown": st.booleans(), "invert_position": st.booleans()}), _calls(_onoff(("up", "down")))),
+    _case(
+        "cover_updown",
+        st.fixed_dictionaries({"invert_updown": st.booleans(), "invert_position": st.booleans(), "long": st.sampled_from([True, False, False]), "stop": st.booleans()}),
+        _calls(st.one_of(_onoff(("up", "down")), _onoff(("up", "down")), st.tuples(st.just("up_stop"), st.integers(1, 7)), st.tuples(st.just("down_stop"), st.integers(1, 7)))),
+    ),
     _case("fan_percent", st.just({}), _calls(st.one_of(st.tuples(st.just("speed"), _pct), _onoff(("turn_on", "turn_off"))))),
     _case("fan_step", st.fixed_dictionaries({"max_step": st.integers(1, 10)}), _calls(st.one_of(st.tuples(st.just("speed_step"), st.integers(0, 10)), _onoff(("turn_on", "turn_off"))))),
     _case("fan_switch", st.just({}), _calls(st.one_of(_onoff(("turn_on", "turn_off")), st.tuples(st.just("oscillation"), st.booleans()), st.tuples(st.just("speed"), _pct)))),
@@ -318,7 +322,11 @@ def build(xknx, dev: str, cfg: dict):
     if dev == "cover_angle":
         return D.Cover(xknx, "d", group_address_long=g(1), group_address_angle=g(2), invert_angle=cfg["invert_angle"])
     if dev == "cover_updown":
-        return D.Cover(xknx, "d", group_address_long=g(1), group_address_stop=g(3), invert_updown=cfg["invert_updown"], invert_position=cfg["invert_position"], travel_time_down=10, travel_time_up=20)
+        # with a long (up/down) address, or without one but with a writable position address (open / close through 0 % / 100 %)
+        kw = {"group_address_long": g(1)} if cfg.get("long", True) else {"group_address_position": g(2)}
+        if cfg.get("stop", True):
+            kw["group_address_stop"] = g(3)
+        return D.Cover(xknx, "d", invert_updown=cfg["invert_updown"], invert_position=cfg["invert_position"], travel_time_down=10, travel_time_up=20, **kw)
     if dev == "fan_percent":
         return D.Fan(xknx, "d", group_address_speed=g(1))
     if dev == "fan_step":
@@ -435,8 +443,8 @@ async def step(xknx, d, dev: str, cfg: dict, setter: str, val, clock: Clock):
         await (d.set_on() if setter == "on" else d.set_off())
     elif setter in ("turn_on", "turn_off"):
         await (d.turn_on() if setter == "turn_on" else d.turn_off())
-    elif setter in ("up", "down"):
-        await (d.set_up() if setter == "up" else d.set_down())
+    elif setter in ("up", "down", "up_stop", "down_stop"):
+        await (d.set_up() if setter.startswith("up") else d.set_down())
     elif setter in ("run", "learn"):
         await (d.run() if setter == "run" else d.learn())
     elif setter == "brightness":
@@ -532,6 +540,25 @@ async def step(xknx, d, dev: str, cfg: dict, setter: str, val, clock: Clock):
         cur = d.current_color_temperature
         ok = cur == val if cfg["type"] == "uint" else close(cur, val, dpt9_tol(val))
         expect(ok, f"Light.color_temperature:{cfg['type']}", f"{what}: current_color_temperature {cur!r}")
+    elif dev == "cover_updown" and setter.endswith("_stop"):
+        # open / close, stop after val/8 of a full travel: the cover rests where it was stopped, between start and end position
+        start = d.travelcalculator._last_known_position  # noqa: SLF001
+        clock.now += (20 if setter.startswith("up") else 10) * val / 8
+        mid = d.current_position()
+        if d.supports_stop and d.is_traveling():
+            await d.stop()
+            n += drain(xknx)
+            clock.now += 1000.0
+            cur = d.current_position()
+            end = 0 if setter.startswith("up") else 100
+            ok = cur == mid and not d.is_traveling() and (start is None or min(start, end) <= cur <= max(start, end))
+            expect(ok, "Cover.updown-then-stop", f"{what}: stopped at {mid!r} (from {start!r} towards {end}), later current_position {cur!r}, is_traveling {d.is_traveling()!r}")
+        else:
+            clock.now += 1000.0
+            want = 0 if setter.startswith("up") else 100
+            cur = d.current_position()
+            expect(cur == want and d.position_reached(), "Cover.updown", f"{what}: current_position {cur!r} after the travel time, expected {want}")
+        nontrivial = True
     elif dev in ("cover_position", "cover_updown"):
         clock.now += 1000.0  # let the travel complete
         want = val if dev == "cover_position" else (0 if setter == "up" else 100)
